@@ -150,6 +150,18 @@ def FUNSPEC(name, **kw):
     return c
 
 
+def class_by_qual(q: str):
+    """class schema registered for a qualified name (schemas may be registered under a short alias)"""
+    tail = q.split(":")[1] if ":" in q else q
+    cs = CLASSES.get(tail)
+    if cs is not None and cs.qual == q:
+        return cs
+    for cs in CLASSES.values():
+        if cs.qual == q:
+            return cs
+    return None
+
+
 def find_field(cls_name: str, fname: str):
     """(Ty, owner class) of a field, searching bases."""
     seen = set()
